@@ -106,8 +106,8 @@ func (t *nameTracker) snapshot() map[string]bool {
 // storeEnv: facts about one store that the renderings consult.
 type storeEnv struct {
 	svcs  map[svcKey]svcInfo
-	kinds map[string]bool // "kind\x00name" pairs a registered local instance backs
-	pairs map[string]bool // "upstream\x00downstream" pairs the registered proxies give rise to
+	kinds map[string]bool   // "kind\x00name" pairs a registered local instance backs
+	pairs map[string]bool   // "upstream\x00downstream" pairs the registered proxies give rise to
 	nodes map[string]string // "node\x00peer" (lower case) -> the node row's spelling
 }
 
@@ -201,32 +201,39 @@ func reRegistered(before, after map[svcKey]string) bool {
 
 // witness: which findings may be invoked for a cut, and for which names.
 type witness struct {
-	masks      maskSet
-	staleNames map[string]bool // service names a stale check carries, or its service carries
-	gwNames    map[string]bool // gateway and service names of gateway-services rows
-	gwAll      bool            // a wildcard mapping exists: any name can be affected
-	topoNames  map[string]bool // names of proxy mesh-topology rows
-	leftover   map[string]bool // names of proxy rows no registered proxy gives rise to
-	staleKinds map[string]bool // kinds that have an unbacked kind-service-names row
-	orphanIDs  map[string]bool // quoted secret ids of secrets rows without a peering row
-	missing    map[string]bool // "upstream\x00downstream" pairs a registered proxy declares but no row records
-	staleHash  map[string]bool // "kind\x00name" of config entries whose stored hash is not the hash of their content
-	unheldIDs  map[string]bool // quoted ids in peering-secret-uuids that no secrets row holds
-	respelled  map[string]bool // "node\x00peer" (lower case) of nodes with a service row spelled otherwise
-	variants   map[string]bool // lower-cased service names registered in several spellings so far
+	masks       maskSet
+	staleNames  map[string]bool // service names a stale check carries, or its service carries
+	gwNames     map[string]bool // gateway and service names of gateway-services rows
+	gwAll       bool            // a wildcard mapping exists: any name can be affected
+	topoNames   map[string]bool // names of proxy mesh-topology rows
+	leftover    map[string]bool // names of proxy rows no registered proxy gives rise to
+	staleKinds  map[string]bool // kinds that have an unbacked kind-service-names row
+	orphanIDs   map[string]bool // quoted secret ids of secrets rows without a peering row
+	missing     map[string]bool // "upstream\x00downstream" pairs a registered proxy declares but no row records
+	staleHash   map[string]bool // "kind\x00name" of config entries whose stored hash is not the hash of their content
+	unheldIDs   map[string]bool // quoted ids in peering-secret-uuids that no secrets row holds
+	respelled   map[string]bool // "node\x00peer" (lower case) of nodes with a service row spelled otherwise
+	variants    map[string]bool // lower-cased service names registered in several spellings so far
+	usageRows   map[string]bool // ids of usage rows whose index is not max(nodes,services,kvs), or whose count is zero
+	staleChecks map[string]bool // "node\x00check\x00peer" (lower case) of the stale checks
+	suffix      bool            // the comparison is made after commands were applied to both stores
 }
 
 func (w *witness) has(m maskSet) bool { return w != nil && w.masks&m != 0 }
 
-// withVariants: the witness for a comparison made after a suffix, in which both stores were given
-// the later spellings too.
-func (w *witness) withVariants(v map[string]bool) *witness {
-	if w == nil || len(v) == 0 {
+// forSuffix: the witness for a comparison made after a suffix: both stores were given the later
+// spellings too, and the consequences that need a later command (a stale check rewritten by a
+// registration that repeats it) may now show.
+func (w *witness) forSuffix(v map[string]bool) *witness {
+	if w == nil {
 		return w
 	}
 	c := *w
-	c.variants = v
-	c.masks |= mNameSpelling
+	c.suffix = true
+	if len(v) > 0 {
+		c.variants = v
+		c.masks |= mNameSpelling
+	}
 	return &c
 }
 
@@ -241,6 +248,9 @@ func (w *witness) ctx(env *storeEnv, refresh bool) *canonCtx {
 	c := &canonCtx{masks: w.maskOf(), refresh: refresh, svcs: env.svcs, nodes: env.nodes}
 	if w != nil {
 		c.staleHash, c.respelled, c.variants = w.staleHash, w.respelled, w.variants
+		if w.suffix {
+			c.staleChecks = w.staleChecks
+		}
 	}
 	return c
 }
@@ -257,7 +267,7 @@ func computeWitness(st *state.Store, hf histFacts) *witness {
 	renamed := hf.renamed
 	w := &witness{staleNames: map[string]bool{}, gwNames: map[string]bool{}, topoNames: map[string]bool{}, leftover: map[string]bool{},
 		staleKinds: map[string]bool{}, orphanIDs: map[string]bool{}, missing: map[string]bool{}, staleHash: map[string]bool{},
-		unheldIDs: map[string]bool{}, respelled: map[string]bool{}, variants: hf.variants}
+		unheldIDs: map[string]bool{}, respelled: map[string]bool{}, variants: hf.variants, usageRows: map[string]bool{}, staleChecks: map[string]bool{}}
 	if len(hf.variants) > 0 {
 		w.masks |= mNameSpelling
 	}
@@ -269,6 +279,7 @@ func computeWitness(st *state.Store, hf histFacts) *witness {
 	dialing := map[string]bool{}
 	var secrets []*pbpeering.PeeringSecrets
 	type usageRow struct {
+		id  string
 		idx uint64
 		cnt int64
 	}
@@ -284,6 +295,7 @@ func computeWitness(st *state.Store, hf histFacts) *witness {
 						w.masks |= mCheckRefresh
 						w.staleNames[strings.ToLower(si.name)] = true
 						w.staleNames[strings.ToLower(v.ServiceName)] = true
+						w.staleChecks[strings.ToLower(v.Node+"\x00"+string(v.CheckID)+"\x00"+v.PeerName)] = true
 					}
 				}
 			}
@@ -343,7 +355,7 @@ func computeWitness(st *state.Store, hf histFacts) *witness {
 				}
 			case "usage":
 				ue := reflect.Indirect(reflect.ValueOf(item))
-				usage = append(usage, usageRow{ue.FieldByName("Index").Uint(), ue.FieldByName("Count").Int()})
+				usage = append(usage, usageRow{ue.FieldByName("ID").String(), ue.FieldByName("Index").Uint(), ue.FieldByName("Count").Int()})
 			}
 		}
 		return true
@@ -357,6 +369,7 @@ func computeWitness(st *state.Store, hf histFacts) *witness {
 	for _, u := range usage {
 		if u.cnt == 0 || u.idx != expect {
 			w.masks |= mUsage
+			w.usageRows[u.id] = true
 		}
 	}
 	for p := range env.pairs {
@@ -424,6 +437,11 @@ func (w *witness) indexRowRule(key string) maskSet {
 		}
 		if w.has(mTopologyStamp) {
 			return mTopologyStamp
+		}
+	case key == "checks" || strings.HasSuffix(key, ":checks"):
+		// after a suffix: a registration repeating a stale check rewrites it on the donor only
+		if w.suffix && w.has(mCheckRefresh) {
+			return mCheckRefresh
 		}
 	default:
 		// "peer.~:service.<name>": bumped when a check carrying that name is rewritten or deleted
@@ -496,7 +514,8 @@ func (d *storeDump) lenient(table string, w *witness, refresh bool) []string {
 			if w.has(mNameSpelling) && id == "service-names" {
 				continue // how many names there are depends on which spellings count as one
 			}
-			if w.has(mUsage) {
+			if w.has(mUsage) && w.usageRows[id] {
+				// only the rows the witness names: index not compared, a zero count is no row
 				if cnt := ue.FieldByName("Count").Int(); cnt != 0 {
 					out = append(out, fmt.Sprintf("{ID:%q,Count:%d}", id, cnt))
 				}
@@ -505,7 +524,7 @@ func (d *storeDump) lenient(table string, w *witness, refresh bool) []string {
 		case "index":
 			ie := item.(*state.IndexEntry)
 			if w.indexRowRule(ie.Key) != 0 {
-				out = append(out, fmt.Sprintf("{Key:%q,Value:0}", ie.Key))
+				// attributed to a finding whose witness holds: neither value nor presence compared
 			} else {
 				out = append(out, fmt.Sprintf("{Key:%q,Value:%d}", ie.Key, ie.Value))
 			}
@@ -729,6 +748,11 @@ func queryRule(name string, w *witness) (idxMasks maskSet, resultMask maskSet) {
 		}
 		if fam == "ServiceUsage" && w.has(mNameSpelling) {
 			idxMasks |= mNameSpelling
+		}
+	case "NodeChecks", "ChecksInState", "NodeDump", "ServiceDump":
+		// their index is (or includes) the checks table's index row
+		if w.suffix && w.has(mCheckRefresh) {
+			idxMasks |= mCheckRefresh
 		}
 	case "ServiceChecks":
 		if w.has(mCheckRefresh) && w.staleNames[arg] {
